@@ -375,7 +375,11 @@ class C01(MergeFamProp):
     P_SHARED = 0.12
 
     def gen_docs(self, rng, tier):
-        d = {'raw': G.gen_doc(rng, self.VOCAB, self.DEPTH, self.PTAG)}
+        G.BIG = rng.random() < G.P_BIG
+        try:
+            d = {'raw': G.gen_doc(rng, self.VOCAB, self.DEPTH + (1 if G.BIG else 0), self.PTAG)}
+        finally:
+            G.BIG = False
         if rng.random() < self.P_SHARED:
             # one node (preferably a TAGGED one) anchored and aliased: PyYAML gives the same data at both places, so must the config
             # (seeded change S6-C01: duplicates dropped from evaluated lists); outside the model, oracle only
